@@ -22,9 +22,72 @@ class ClassWalker(Walker):
     tests with short-circuit facts, so each path knows the class facts it was taken under)."""
 
     def sym(self, node, st):
+        return self.flatten(self._sym(node, st), st)
+
+    def flatten(self, v, st):
+        """A call through functools.partial objects / a lambda is the call it stands for:
+        partial(f, *a, **k)(*b, **c) == f(*a, *b, **k, **c) (nested partials included); a lambda is expanded with its parameters
+        (a *args parameter included) bound to the argument values."""
+        if not (isinstance(v, tuple) and v and v[0] == 'callv'):
+            return v
+        f = strip(v[1])
+        pa = partial_parts(f)
+        if pa is not None:
+            g, a, k = pa
+            later = dict(v[3])
+            kws = tuple((n, x) for n, x in k if n is None or n not in later) + tuple(v[3])      # a later keyword overrides
+            return self.flatten(('callv', g, tuple(a) + tuple(v[2]), kws), st)
+        if f[0] == 'lambda' and f[1] in self._lambdas:
+            lnode, lenv = self._lambdas[f[1]]
+            env = self.bind_lambda(lnode, v[2], v[3])
+            if env is not None:
+                s2 = st.clone()
+                s2.env = dict(lenv)
+                s2.env.update(env)
+                return self.sym(lnode.body, s2)
+        return v
+
+    def bind_lambda(self, lnode, args, kwargs):
+        a = lnode.args
+        params = [x.arg for x in a.posonlyargs + a.args]
+        env = {}
+        rest = list(args)
+        for p_ in params:
+            if not rest or rest[0][0] == 'star':
+                break
+            env[p_] = rest.pop(0)
+        if rest:
+            if not a.vararg:
+                return None
+            env[a.vararg.arg] = ('tuple', tuple(rest))
+        elif a.vararg:
+            env[a.vararg.arg] = ('tuple', ())
+        names = set(params) | {x.arg for x in a.kwonlyargs}
+        extra = []
+        for n, x in kwargs:
+            if n is not None and n in names and n not in env:
+                env[n] = x
+            elif a.kwarg and n is not None:
+                extra.append((n, x))
+            else:
+                return None
+        if a.kwarg:
+            env[a.kwarg.arg] = ('kwdict', tuple(extra))
+        defaults = dict(zip(params[len(params) - len(a.defaults):], a.defaults))
+        for x, d in zip(a.kwonlyargs, a.kw_defaults):
+            if d is not None:
+                defaults[x.arg] = d
+        for p_ in params + [x.arg for x in a.kwonlyargs]:
+            if p_ not in env:
+                if p_ not in defaults:
+                    return None
+                env[p_] = self.sym(defaults[p_], PathState())
+        return env
+
+    def _sym(self, node, st):
         import ast
-        if isinstance(node, ast.Call) and isinstance(node.func, ast.Subscript):
-            # TABLE[key](...) called directly: same value as `f = TABLE[key]; f(...)`
+        if isinstance(node, ast.Call) and isinstance(node.func, (ast.Subscript, ast.Call, ast.Lambda)):
+            # TABLE[key](...) / partial(f, ...)(...) / (lambda ...)(...) called directly: same value as `f = ...; f(...)`
             args = tuple(('star', self.sym(a.value, st)) if isinstance(a, ast.Starred) else self.sym(a, st) for a in node.args)
             kwl = []
             for kw in node.keywords:
@@ -49,6 +112,16 @@ def strip(v):
     while isinstance(v, tuple) and v and v[0] == 'res':
         v = v[3]
     return v
+
+
+def partial_parts(f):
+    """(function, positional args, keyword pairs) of a functools.partial(...) value, or None."""
+    f = strip(f)
+    if f[0] == 'call' and f[1] in ('partial', 'functools.partial') and f[2] and f[2][0][0] != 'star':
+        return f[2][0], f[2][1:], f[3]
+    if f[0] == 'mcall' and f[1] == ('name', 'functools') and f[2] == 'partial' and f[3] and f[3][0][0] != 'star':
+        return f[3][0], f[3][1:], f[4]
+    return None
 
 
 def subterms(v):
